@@ -2,22 +2,39 @@ from checks_common import DST
 
 ENGINE = {'name': 'dbtx', 'path': 'worlds/dbtx/', 'serves_properties': ['C27'],
           'kind_free_text': 'real gear.database on minimysql through the fake aiomysql driver; scripted error injection at '
-                            'every statement position'}
+                            'every statement position incl. COMMIT / ROLLBACK, concurrent calls, task cancellation'}
 CHECKS = {
     'C27': {
         'level': 'fault_enumeration',
         'engine': 'dbtx',
         'technique': DST + ': injected MySQL errors at every statement position of a transaction (connect, START '
-                           'TRANSACTION, each statement, COMMIT) x error kind x repetition, atomicity oracle against a '
-                           'dict model',
+                           'TRANSACTION, each statement, COMMIT, ROLLBACK) x error kind (transient and non-transient) x '
+                           'repetition, incl. a second error at the ROLLBACK that follows a first one; 1-4 concurrent '
+                           'calls of one @transaction function and of the execute_* helpers; task cancellation at '
+                           'seeded awaits; per-call atomicity oracle against a dict model and a retry oracle derived '
+                           'from the recorded error history (the last error raised in an attempt decides)',
         'design_ref': 'DESIGN.md section 6 (C27), section 4.3',
-        'level_text': 'Each run executes one transactional operation of the real gear.database under a scripted sequence '
-                      'of injected server errors; positions x kinds are sampled densely (counted per site in the '
-                      'evidence), retried/not-retried behaviour and the final table are compared with the model.',
-        'level_note': 'Trusts the re-implemented pymysql error-class mapping and minimysql; bodies <= 5 statements, '
-                      '<= 3 injected errors per operation; ack-lost COMMIT excluded.',
-        'scenarios': [{'module': 'worlds.dbtx.tx', 'quick': 30000, 'thorough': 1500000}],
+        'level_text': 'Scenario tx: each run executes one transactional operation of the real gear.database under a '
+                      'scripted sequence of injected server errors; positions x kinds are sampled densely (counted per '
+                      'site in the evidence), retried/not-retried behaviour, back-off and the final table are compared '
+                      'with the model.  Scenario concurrent: each run executes 1-4 overlapping calls (shared '
+                      '@transaction function, helpers) on private key ranges with up to 3 injected errors per call at '
+                      'any statement incl. COMMIT and ROLLBACK, deliberate body failures and cancellation; after '
+                      'quiescence the durable rows must be exactly the complete write-sets of the calls that returned '
+                      'normally, nothing may stay checked out / open, and every retry decision must follow the last '
+                      'error of its attempt.',
+        'level_note': 'Trusts the re-implemented pymysql error-class mapping and minimysql (write transactions are '
+                      'serialised by one lock, so bodies overlap but never interleave two open write sets); bodies <= 5 '
+                      'writes, <= 3 injected errors per operation, <= 4 concurrent calls, <= 1 cancellation per call; '
+                      'ack-lost COMMIT excluded; errors injected at COMMIT / ROLLBACK discard the transaction on the '
+                      'server.',
+        'scenarios': [{'module': 'worlds.dbtx.tx', 'quick': 30000, 'thorough': 1500000},
+                      {'module': 'worlds.dbtx.concurrent', 'quick': 12000, 'thorough': 600000}],
         'expected_probes': ['site_deadlock_stmt0', 'site_lock_timeout_stmt1', 'site_lost_conn_before_commit_commit',
-                            'site_too_many_conn_connect', 'site_lost_conn_after_stmt2'],
+                            'site_too_many_conn_connect', 'site_lost_conn_after_stmt2',
+                            'transient_then_other_at_rollback', 'other_then_transient_at_rollback', 'site_killed_rollback',
+                            'site_iface_rollback', 'site_deadlock_commit', 'overlapping_bodies',
+                            'cancel_between_statements_after_write', 'cancel_after_retry', 'cancel_during_commit',
+                            'cancel_during_rollback', 'decided_by_second_error'],
     },
 }
